@@ -120,9 +120,6 @@ def check_zip_alignment(ck: Checker, rule: str, fn: Func, call: ast.Call, src_ar
 
 
 def check(ck: Checker) -> None:
-    from . import round4 as _r4
-
-    _r4.create_dirs_all(ck, "C09.order")
     prog, res = ck.prog, ck.res
     ck.decided = [
         "C09.order: apply() performs delete files < delete dirs < create dirs < create files < chmod (recognised by effect)",
@@ -219,6 +216,10 @@ def check(ck: Checker) -> None:
     _error_rules(ck)
 
     rows_rule(ck, "C09.rows")
+    from . import round4 as _r4
+
+    _r4.create_dirs_all(ck, "C09.order")
+
 
 
 def rows_rule(ck: Checker, rule: str) -> None:
